@@ -185,6 +185,8 @@ func c14Run(run *ev.Run) {
 		depth = 6
 	}
 	var total seqx.Stats
+	defer debugLogTail(run, 4, func(s world.Spec) seqx.Model { return c14Opts("quick", s).model(c14Monitor(run, s)) },
+		world.Spec{Store: "memory", Forward: true, Logout: true}, world.Spec{Store: "redis", Forward: true, Logout: true})
 	for i, spec := range []world.Spec{{Store: "memory", Forward: true, Logout: true}, {Store: "redis", Forward: true, Logout: true},
 		{Store: "memory", Forward: true, Logout: true, Discovery: true, NoLogoutRedirect: true}, {Store: "memory", Logout: true, Discovery: true},
 		{Store: "memory", Forward: true, Logout: true, Discovery: true, RichDiscovery: true}} {
